@@ -1164,9 +1164,21 @@ def _fuse_generator_single_yield(st, helpers, caller, cls):
     yields = [x for x in ast.walk(h) if isinstance(x, (ast.Yield, ast.YieldFrom))]
     if len(yields) != 1 or not isinstance(yields[0], ast.Yield) or yields[0].value is None:
         return None
-    k = next((i for i, b in enumerate(loop.body) if isinstance(b, ast.Expr) and b.value is yields[0]), None)
-    if k is None:
+    # the yield statement: directly in the loop body, or inside `if` arms of it (not in a nested loop / try / with)
+    def find(block, path):
+        for i, b in enumerate(block):
+            if isinstance(b, ast.Expr) and b.value is yields[0]:
+                return path + [(block, i)]
+            if isinstance(b, ast.If):
+                r = find(b.body, path + [(block, i)]) or find(b.orelse, path + [(block, i)])
+                if r:
+                    return r
         return None
+    ypath = find(loop.body, [])
+    if ypath is None:
+        return None
+    yblock, k = ypath[-1]
+    nested_tail = any(blk[i + 1:] for blk, i in ypath[:-1])  # statements of enclosing blocks that run after the `if` holding the yield
     if any(isinstance(x, (ast.Try, ast.With, ast.AsyncWith)) for x in ast.walk(h)):
         return None
     if not isinstance(h, ast.AsyncFunctionDef) and any(isinstance(x, ast.Await) for x in ast.walk(h)):
@@ -1190,7 +1202,7 @@ def _fuse_generator_single_yield(st, helpers, caller, cls):
         return None
     if any(isinstance(x, (ast.Break, ast.Continue)) for b in loop.body for x in ast.walk(b) if not isinstance(b, (ast.For, ast.While))):
         pass  # the generator's own break / continue keep their meaning: they stay inside the same loop
-    s2 = loop.body[k + 1:]
+    s2 = yblock[k + 1:] or ([1] if nested_tail else [])
     def own_level(block, kinds):
         for b in block:
             if isinstance(b, kinds):
@@ -1216,7 +1228,17 @@ def _fuse_generator_single_yield(st, helpers, caller, cls):
         ast.copy_location(p2, pseudo)
         pseudo = p2
     ploop = pseudo.body[-1]
-    ploop.body[k:k + 1] = give + [marker]
+
+    def find2(block):
+        for i, b in enumerate(block):
+            if isinstance(b, ast.Expr) and isinstance(b.value, ast.Yield):
+                block[i:i + 1] = give + [marker]
+                return True
+            if isinstance(b, ast.If) and (find2(b.body) or find2(b.orelse)):
+                return True
+        return False
+    if not find2(ploop.body):
+        return None
 
     class R(ast.NodeTransformer):
         def visit_Return(self, node):
